@@ -67,13 +67,47 @@ func forcedPairs(rng *fw.Rng) []c01Prog {
 	return out
 }
 
+// forcedData: data flowing from one token to a later condition on another token (race-free: the writer's
+// token has been joined / its sub-process has ended before the reading gateway is reached). The token that
+// reads has already evaluated a condition before the write happens.
+func forcedData() []c01Prog {
+	first := func() *gen.Block { // a gateway decided on an initial variable before anything is written
+		return &gen.Block{Kind: "xor", Default: 1, Kids: []*gen.Block{gen.T(), gen.T()},
+			Conds: []*gen.Cond{{Kind: "var", Var: "v0", Op: ">", Val: 0}, nil}, Ends: []bool{false, false}}
+	}
+	read := func(w string, op string) *gen.Block {
+		return &gen.Block{Kind: "xor", Default: 1, Kids: []*gen.Block{gen.T(), gen.T()},
+			Conds: []*gen.Cond{{Kind: "var", Var: w, Op: op, Val: 0}, nil}, Ends: []bool{false, false}}
+	}
+	var out []c01Prog
+	add := func(name string, ast *gen.Block) {
+		out = append(out, c01Prog{Name: "data:" + name, AST: ast, NV: 2, Family: "data:" + name})
+	}
+	add("sub", gen.Seq(first(), &gen.Block{Kind: "sub", Default: -1, Kids: []*gen.Block{gen.T("w1")}}, read("w1", ">")))
+	add("sub-nested", gen.Seq(first(), &gen.Block{Kind: "sub", Default: -1, Kids: []*gen.Block{
+		gen.Seq(gen.T(), &gen.Block{Kind: "sub", Default: -1, Kids: []*gen.Block{gen.T("w1")}}, read("w1", "=="))}}, read("w1", ">")))
+	add("and", gen.Seq(first(), &gen.Block{Kind: "and", Default: -1, Kids: []*gen.Block{gen.T("w1"), gen.T("w2")}}, read("w1", ">"), read("w2", "==")))
+	add("and-inner", gen.Seq(first(), &gen.Block{Kind: "and", Default: -1, Kids: []*gen.Block{
+		gen.Seq(gen.T("w1"), read("w1", ">")), gen.Seq(first(), gen.T("w2"))}}, read("w2", ">")))
+	add("loop-sub", gen.Seq(first(), &gen.Block{Kind: "loop", Default: -1, Var: "cntD", Bound: 2, Kids: []*gen.Block{
+		gen.Seq(&gen.Block{Kind: "sub", Default: -1, Kids: []*gen.Block{gen.T("w1")}}, read("w1", ">"))}}, read("w1", "==")))
+	add("xor-branch", gen.Seq(first(), &gen.Block{Kind: "xor", Default: 1, Kids: []*gen.Block{gen.T("w1"), gen.T("w2")},
+		Conds: []*gen.Cond{{Kind: "var", Var: "v1", Op: ">", Val: 0}, nil}, Ends: []bool{false, false}}, read("w1", ">"), read("w2", ">")))
+	add("condtask", gen.Seq(first(), &gen.Block{Kind: "sub", Default: -1, Kids: []*gen.Block{gen.T("w1")}},
+		&gen.Block{Kind: "condtask", Default: -1, Kids: []*gen.Block{gen.T(), gen.T(), gen.T()},
+			Conds: []*gen.Cond{nil, {Kind: "var", Var: "w1", Op: ">", Val: 0}, {Kind: "var", Var: "w1", Op: "==", Val: 0}}}))
+	return out
+}
+
 func randomProgs(rng *fw.Rng, n, depth, budget int) []c01Prog {
 	var out []c01Prog
 	for i := 0; i < n; i++ {
 		nv := 2 + rng.Intn(3)
-		gn := &gen.Gen{R: rng, NVars: nv, Budget: budget, NoOr: i%5 < 3}
+		gn := &gen.Gen{R: rng, NVars: nv, Budget: budget, NoOr: i%5 < 3, Data: i%2 == 1}
 		var kids []*gen.Block
-		kids = append(kids, gen.T())
+		first := gn.Block("task", depth, false)
+		kids = append(kids, first)
+		gn.Settle(first)
 		nb := 1 + rng.Intn(3)
 		for j := 0; j < nb; j++ {
 			last := j == nb-1
@@ -82,6 +116,7 @@ func randomProgs(rng *fw.Rng, n, depth, budget int) []c01Prog {
 			if k.Kind == "condtask" {
 				break
 			}
+			gn.Settle(k)
 		}
 		ast := gen.Seq(kids...)
 		out = append(out, c01Prog{Name: fmt.Sprintf("rnd%d", i), AST: ast, NV: nv, Family: familyOf(ast)})
@@ -125,6 +160,15 @@ func assignments(nv, max int, rng *fw.Rng) []map[string]int64 {
 	return out
 }
 
+// zeroData gives the task-written data variables of a program their initial value: they exist from the
+// start (0); the k-th request of their task writes k+1.
+func zeroData(vars map[string]int64, ast *gen.Block) map[string]int64 {
+	for _, w := range gen.WVars(ast) {
+		vars[w] = 0
+	}
+	return vars
+}
+
 // c01CasesFor expands programs into stepwise (+ storm) cases.
 func c01CasesFor(progs []c01Prog, rng *fw.Rng, maxData, maxOrders, stormReps int, wrap func(*gen.Block) *gen.Block) []fw.Case {
 	var cs []fw.Case
@@ -138,6 +182,7 @@ func c01CasesFor(progs []c01Prog, rng *fw.Rng, maxData, maxOrders, stormReps int
 		}
 		g := gen.Lower("p", ast)
 		for di, vars := range assignments(p.NV, maxData, rng) {
+			zeroData(vars, ast)
 			base := step.Case{Name: fmt.Sprintf("%s/d%d", p.Name, di), G: g, Vars: vars, Family: p.Family, Lenient: hasOr(g)}
 			orders, _ := step.Orders(&base, maxOrders, rng)
 			if len(orders) > maxOrders {
@@ -163,7 +208,7 @@ func c01CasesFor(progs []c01Prog, rng *fw.Rng, maxData, maxOrders, stormReps int
 
 func c01Cases(tier string, seed uint64) []fw.Case {
 	rng := fw.NewRng(seed, "C01")
-	progs := forcedPairs(rng)
+	progs := append(forcedPairs(rng), forcedData()...)
 	var cs []fw.Case
 	if tier == "thorough" {
 		progs = append(progs, randomProgs(rng, 1500, 4, 25)...)
@@ -182,7 +227,7 @@ func init() {
 		Run: func(c fw.Case, env *fw.Env) *fw.V {
 			return runStep("C01", c, env, nil)
 		},
-		Rule: "block-structured programs (every legal ordered nesting pair of {xor,and,or,loop,conditional-flow task,sub-process} + PRNG programs, depth<=3/4) x variable assignments steering the conditions x answer orders (all if <=limit else PRNG-drawn) run stepwise against the reference token game at every quiescent point, plus storm runs; non-trivial = >=1 gateway/conditional flow and (>=2 requests pending at once or a condition decided a route); distinct = descriptor hash",
+		Rule: "block-structured programs (every legal ordered nesting pair of {xor,and,or,loop,conditional-flow task,sub-process} + data-flow programs in which a condition reads what a task on another, already joined token wrote (sub-process, nested, parallel block, loop, exclusive branch, conditional flows) + PRNG programs, depth<=3/4, half of them with task-written data variables read by later conditions) x variable assignments steering the conditions x answer orders (all if <=limit else PRNG-drawn) run stepwise against the reference token game at every quiescent point, plus storm runs; non-trivial = >=1 gateway/conditional flow and (>=2 requests pending at once or a condition decided a route); distinct = descriptor hash",
 		Assumptions: []string{"programs are block-structured and data-race-free by construction (conditions read variables no concurrently live branch writes)", "reference token game is the oracle"},
 	})
 }
